@@ -37,11 +37,11 @@ type c11Case struct {
 }
 
 var c11Damages = map[string][]string{
-	"gpt+fat32": {"gpt-primary-header", "gpt-primary-entries", "gpt-backup-header", "fsinfo-stale", "fat-copies-differ", "fat-dirty-flag"},
+	"gpt+fat32": {"image-cut-short", "gpt-primary-header", "gpt-primary-entries", "gpt-backup-header", "fsinfo-stale", "fat-copies-differ", "fat-dirty-flag"},
 	"fat32":     {"fsinfo-stale", "fat-copies-differ", "fat-dirty-flag"},
 	"fat16":     {"fat-copies-differ", "fat-dirty-flag"},
 	"fat12":     {"fat-copies-differ"},
-	"mbr+fat16": {"fat-copies-differ", "fat-dirty-flag"},
+	"mbr+fat16": {"image-cut-short", "fat-copies-differ", "fat-dirty-flag"},
 	"ext4":      {"ext4-not-clean", "ext4-mount-count-at-max", "ext4-errors-flag"},
 }
 
@@ -188,7 +188,11 @@ func c11Run(c core.Case, env *core.Env) core.Result {
 		return res
 	}
 	img := build.Bytes()
-	if p.Damage != "" {
+	if p.Damage == "image-cut-short" {
+		// the image file ends in the middle of partition 1 (a truncated download, a table written for a larger disk)
+		img = img[:start+size/2]
+		devSize = int64(len(img))
+	} else if p.Damage != "" {
 		pristine := sha(img)
 		c11Damage(img, p.Damage, p.Image, start)
 		if sha(img) == pristine {
@@ -215,7 +219,7 @@ func c11Run(c core.Case, env *core.Env) core.Result {
 		st.SetLog(true)
 		b = file.New(st, false)
 		readOnlyRoute = false
-	case "diskfs-open-ro", "openfrompath-ro":
+	case "diskfs-open-ro", "openfrompath-ro", "osfile-rdwr-ro":
 		realPath = filepath.Join(env.Scratch, "c11-"+core.Hash(c.ID)+".img")
 		if err := os.WriteFile(realPath, img, 0o600); err != nil {
 			res.Inconclusive = err.Error()
@@ -244,6 +248,15 @@ func c11Run(c core.Case, env *core.Env) core.Result {
 	case "openfrompath-ro":
 		b, err = file.OpenFromPath(realPath, true)
 		if err == nil {
+			d, err = diskfs.OpenBackend(b, secOpt)
+		}
+	case "osfile-rdwr-ro":
+		// read-only is a property of the backend here, not of the descriptor: the file itself is open read-write
+		var osf *os.File
+		osf, err = os.OpenFile(realPath, os.O_RDWR, 0)
+		if err == nil {
+			defer osf.Close()
+			b = file.New(osf, true)
 			d, err = diskfs.OpenBackend(b, secOpt)
 		}
 	default:
@@ -498,10 +511,10 @@ func init() {
 	core.Register(&core.Check{
 		ID:          "C11",
 		Level:       "exploration",
-		Rule:        "prebuilt images {fat12, fat16, fat32, ext4, iso9660 (Rock Ridge), squashfs, GPT disk with FAT32 partition, MBR disk with FAT16 partition} are opened read-only through four routes (file.New(store, readOnly=true) over an instrumented store with a write sentinel, a backend whose Writable() fails, diskfs.Open(path, ReadOnly), file.OpenFromPath(path, true)) and, for clause (c) and finalized images, through a writable backend with a write log; seeded interleavings of mutating entry points (Partition, WritePartitionContents, CreateFilesystem, Mkdir, OpenFile with every write flag, Write through a handle, Rename, Remove, SetLabel, Chmod, Chown, Chtimes, Symlink, Finalize) and reading entry points are driven: every mutator must return an error and cause zero write events, reading calls must cause zero write events, and the image hash - taken before the library first touches the image, so that opening itself is covered - must be unchanged; the same is driven on images with a stale or inconsistent spot a reader might be tempted to repair (GPT primary header / primary entries / backup header failing their CRC, FSInfo free count stale, FAT copies differing, FAT dirty flag, ext4 not cleanly unmounted / error flag / mount count at its maximum): refusing such an image is an observation, writing to it is a violation; non-trivial = an interleaving with at least one rejected mutator or checked reading call; distinct = distinct (image, route, seed)",
+		Rule:        "prebuilt images {fat12, fat16, fat32, ext4, iso9660 (Rock Ridge), squashfs, GPT disk with FAT32 partition, MBR disk with FAT16 partition} are opened read-only through five routes (file.New(store, readOnly=true) over an instrumented store with a write sentinel, a backend whose Writable() fails, diskfs.Open(path, ReadOnly), file.OpenFromPath(path, true), file.New(os file opened O_RDWR, readOnly=true)) and, for clause (c) and finalized images, through a writable backend with a write log; seeded interleavings of mutating entry points (Partition, WritePartitionContents, CreateFilesystem, Mkdir, OpenFile with every write flag, Write through a handle, Rename, Remove, SetLabel, Chmod, Chown, Chtimes, Symlink, Finalize) and reading entry points are driven: every mutator must return an error and cause zero write events, reading calls must cause zero write events, and the image hash - taken before the library first touches the image, so that opening itself is covered - must be unchanged; the same is driven on images with a stale or inconsistent spot a reader might be tempted to repair (image file cut short in the middle of the partition; GPT primary header / primary entries / backup header failing their CRC, FSInfo free count stale, FAT copies differing, FAT dirty flag, ext4 not cleanly unmounted / error flag / mount count at its maximum): refusing such an image is an observation, writing to it is a violation; non-trivial = an interleaving with at least one rejected mutator or checked reading call; distinct = distinct (image, route, seed)",
 		Assumptions: []string{"for the two real-path routes the observation is the SHA-256 of the file before/after (no per-call write log)"},
 		MinSigs:     map[string]int{"quick": 40, "thorough": 1000},
-		NeedMarks:   []string{"damage gpt-primary-header", "damage gpt-backup-header", "damage fsinfo-stale", "damage fat-copies-differ", "damage ext4-not-clean", "route store-ro", "route writable-fails", "route diskfs-open-ro", "route openfrompath-ro", "route writable-reads", "route finalized-writable"},
+		NeedMarks:   []string{"damage gpt-primary-header", "damage gpt-backup-header", "damage fsinfo-stale", "damage fat-copies-differ", "damage ext4-not-clean", "route store-ro", "route osfile-rdwr-ro", "damage image-cut-short", "route writable-fails", "route diskfs-open-ro", "route openfrompath-ro", "route writable-reads", "route finalized-writable"},
 		CPUSec:      300,
 		Cases: func(seed int64, tier string) []core.Case {
 			r := gen.New(seed ^ 0xC11)
@@ -512,11 +525,11 @@ func init() {
 			var cs []core.Case
 			for rep := 0; rep < reps; rep++ {
 				for _, im := range images {
-					for _, rt := range []string{"store-ro", "writable-fails", "diskfs-open-ro", "openfrompath-ro", "writable-reads"} {
+					for _, rt := range []string{"store-ro", "writable-fails", "diskfs-open-ro", "openfrompath-ro", "osfile-rdwr-ro", "writable-reads"} {
 						cs = append(cs, core.MkCase(fmt.Sprintf("%s-%s-%d", im, rt, rep), "readonly-"+im, r.Int63(), c11Case{Image: im, Route: rt, Calls: calls}))
 					}
 					for _, dm := range c11Damages[im] {
-						for _, rt := range []string{"store-ro", "writable-reads", "diskfs-open-ro"} {
+						for _, rt := range []string{"store-ro", "writable-reads", "diskfs-open-ro", "osfile-rdwr-ro"} {
 							cs = append(cs, core.MkCase(fmt.Sprintf("%s-%s-%s-%d", im, dm, rt, rep), "readonly-"+im, r.Int63(), c11Case{Image: im, Route: rt, Calls: calls, Damage: dm}))
 						}
 					}
